@@ -196,6 +196,11 @@ var c14Observers = []c14Named{
 	{"write", []string{"write(hello_out), nl."}},
 	{"read", []string{"catch(read(X), error(E, _), true)."}},
 	{"get_char", []string{"catch(get_char(C), error(E, _), true)."}},
+	// the SAME program text loaded by both interpreters: how it is read depends on the loading interpreter's own operator table
+	// and double_quotes flag (the text is unique per pass: #T#)
+	{"load text using ===>", []string{"!exec iso_u_#T#(a ===> b).\n", "catch(findall(X, iso_u_#T#(X), L), error(E, _), true)."}},
+	{"load text with a string", []string{"!exec iso_v_#T#(\"hi\").\n", "catch(findall(X, iso_v_#T#(X), L), error(E, _), true)."}},
+	{"operator term as text", []string{"X = '===>'(a, '+'(b, c))."}},
 	{"open files", []string{"(setof(M, S^F^(stream_property(S, mode(M)), stream_property(S, file_name(F))), L) -> true ; '='(L, []))."}},
 }
 
